@@ -551,3 +551,29 @@ Definition mk_q_nv (ns : option text) (ver : option Z) (ty : text) (oid : bytes)
   if negb (mem_bytes ty (enum_values OBJECT_TYPES)) then Err EValue
   else if nv_bad ns ver then Err EValidation
   else mk_q ty oid origin visit anchor path lines.
+
+(* ---------------------------------------------------------------- numbers of another class (printer before commit 8fc7b57)
+   The validators take a bool where an int is declared (bool is a subclass of
+   int, True == 1).  The printer used str(x), and str(True) = "True"; it now
+   writes "%d" % x, the decimal of the VALUE, which is what str_int models.
+   [is_bool] says that the Python object holding the value z is a bool. *)
+Definition S_True : text := Eval vm_compute in bs "True".
+Definition S_False : text := Eval vm_compute in bs "False".
+Definition str_pyint_old (lim : N) (is_bool : bool) (z : Z) : result text :=
+  if is_bool then Ok (if Z.eqb z 0 then S_False else S_True) else str_int lim z.
+
+Definition print_lines_str_old (lim : N) (fa fb : bool) (l : Z * option Z) : result text :=
+  match l with
+  | (a, None) => str_pyint_old lim fa a
+  | (a, Some b) => bind (str_pyint_old lim fa a) (fun x => bind (str_pyint_old lim fb b) (fun y => Ok (x ++ [45] ++ y)))
+  end.
+
+(* __str__ before 8fc7b57 for a value whose first / second line number is held
+   by a bool: "lines" is the last entry of the qualifiers dict *)
+Definition print_q_str_old (lim : N) (fa fb : bool) (v : qualified) : result text :=
+  match q_lines v with
+  | None => print_q lim v
+  | Some l =>
+      bind (print_q lim (mkQ (q_ty v) (q_oid v) (q_origin v) (q_visit v) (q_anchor v) (q_path v) None)) (fun p =>
+      bind (print_lines_str_old lim fa fb l) (fun t => Ok (p ++ [59] ++ K_lines ++ [61] ++ t)))
+  end.
